@@ -64,8 +64,14 @@ def run_unit(A, unit, rep, tier):
             lv = live(g)
             dumps = [n for n in lv if n.kind == "call_ext" and n["callee"] == "json.dumps"]
             fileops = [n for n in lv if is_res_write(n)]
-            if not dumps or not fileops:
-                raise AnalysisError(f"anchor: {func.qualname}: serialisation or file operations not recognised")
+            if not fileops:
+                raise AnalysisError(f"anchor: {func.qualname}: no file operations recognised")
+            if not dumps:
+                n = fileops[0]
+                rep.fail("C08.a", norm_key("C08.a", func.qualname, "order"),
+                         f"{func.qualname}: in this write mode the content is not serialised completely (json.dumps) before `{n.stmt}` touches the file; unserialisable content or a crash while encoding leaves a damaged file",
+                         g.witness(g.path(g.entry, [n.id])), label)
+                continue
             # (a) serialise first
             w = None
             for n in fileops:
